@@ -118,6 +118,16 @@ func c02Stores() [][]store.Pair {
 		mk(func(i int) (bool, string) { return i%2 == 0, "x" }),
 		mk(func(i int) (bool, string) { return i%2 == 1, []string{"x", "y"}[(i/2)%2] }),
 		mk(func(i int) (bool, string) { return true, "y" }),
+		// values that equal their key (every third pair) or another stored key
+		mk(func(i int) (bool, string) {
+			switch i % 3 {
+			case 0:
+				return true, c02Universe[i]
+			case 1:
+				return true, c02Universe[(i+7)%len(c02Universe)]
+			}
+			return true, "zz"
+		}),
 	}
 }
 
@@ -132,6 +142,16 @@ func c02Atoms(t core.Tier) []*ref.Expr {
 	a = append(a, inAtoms(ref.Key(), c02Lits, 2)...)
 	a = append(a, betweenAtoms(ref.Key(), c02Lits)...)
 	a = append(a, ref.Bin("=", ref.Value(), ref.S("x")), ref.Bl(true), ref.Bl(false))
+	// key-constraining operators with an operand that is NOT a literal (or only
+	// becomes one by folding): a region may be inferred from the literals alone
+	// only if that loses nothing
+	k, v, s := ref.Key, ref.Value, ref.S
+	a = append(a,
+		ref.In(k(), v(), s("b")), ref.In(k(), s("b"), v()), ref.In(k(), s("a"), v(), s("ab")), ref.In(k(), ref.Call("lower", v()), s("c")),
+		ref.Bin("=", k(), v()), ref.Bin("=", v(), k()), ref.Bin("^=", k(), v()), ref.Bin(">=", k(), v()), ref.Bin("<", k(), v()),
+		ref.Btw(k(), s("a"), v()), ref.Btw(k(), v(), s("zzzz")),
+		ref.Bin("=", k(), ref.Bin("+", s("a"), s("b"))), ref.Bin("^=", k(), ref.Call("lower", s("AB"))), ref.In(k(), ref.Bin("+", s("a"), s("b")), s("c")),
+	)
 	c02AtomsCache = a
 	return a
 }
